@@ -22,12 +22,12 @@ LEVEL = "exploration"
 RULE = ("cases = (a) every one-row CSV rule file over 24 patterns (plain, lookahead, \\b, back-reference, anchors, alternation, leading "
         "parenthesis, .*, char class, double quote, apostrophe, escaped +, literal backslash, \\d{3}, ' and ' inside a pattern, invalid regex) x "
         "18 modifier forms (none, amount > >= < <= = range, date = range lastNdays, month, two combined) x 4 merchant names x category "
-        "set/empty x 3 tag forms; (b) every ordered pair (quick) / triple (thorough) over a 27-row reduced alphabet incl. comment and blank "
+        "set/empty x 4 tag forms (incl. a tag containing a comma); (b) every ordered pair (quick) / triple (thorough) over a 27-row reduced alphabet incl. comment and blank "
         "lines. Each file is classified on descriptions x boundary amounts x boundary dates (only the dimensions its rows can "
         "distinguish). non-trivial = file whose rules match at least one transaction and not all of them; files distinct by construction")
 ASSUMPTIONS = ["a CSV file is 'accepted' when load_merchant_rules returns without raising",
                "date.today() is fixed to 2025-06-15 for [date:lastNdays]",
-               "merchant names/tags without commas-in-tags or newlines; Unknown merchant names are compared as produced"]
+               "merchant names/tags without newlines; Unknown merchant names are compared as produced"]
 
 PATTERNS = ["NETFLIX", r"UBER\s(?!EATS)", r"\bUBER\b", r"(\w)\1", "^AMAZON", "GAS$", "AMAZON|AMZN", "(AMAZON|AMZN)", "COST.*GAS",
             "[A-C]OSTCO", 'SAY "HI"', "O'REILLY", r"C\+\+", r"A\\B", r"\d{3}", "BED and BATH", "NETFLIX(",
@@ -40,7 +40,7 @@ MODS = ["", "[amount>100]", "[amount>=100]", "[amount<100]", "[amount<=100]", "[
         # operands with more than six significant digits (exact rendering of the number matters)
         "[amount>12345.67]", "[amount=12345.67]", "[amount:1000000.5-2500000.25]"]
 NAMES = ["Netflix", "A, B", "#Hash", " Padded "]
-TAGS = ["", "a|b", "A"]
+TAGS = ["", "a|b", "A", "x,y|z"]
 DESCS = ["NETFLIX.COM 123", "UBER EATS", "UBER TRIP 77", "UBERX", "AMAZON MKTP", "PAY AMZN", "COSTCO GAS", "BLUE BOTTLE COFFEE",
          'SAY "HI" CAFE', "O'REILLY AUTO", "C++ BOOKS", "A\\B STORE", "cost plus gas", "BED and BATH", "AB",
          '12" PIZZA" #55', "ACME INC...", "ACME INC", "DOTS", "DOTS..", "pizza \U0001F355 night", "straße 5", "HAUPTSTRASSE 7"]
